@@ -135,6 +135,13 @@ def dispatch_mode(func, args, kwargs):
     out = func(*args, **kwargs)
     if isinstance(out, torch.Tensor) and not isinstance(out, Sym) and out.is_floating_point() and out.device.type != "meta" \
             and name in LIFT_FACTORIES:
+        if name in ("empty", "empty_like", "new_empty", "empty_strided", "Tensor", "FloatTensor", "DoubleTensor") and \
+                (name.startswith("empty") or name == "new_empty" or (args and all(isinstance(a_, int) for a_ in args))):
+            # uninitialised memory: every element is an unknown value (POISON), never a concrete number
+            a = np.empty(tuple(out.shape), dtype=object)
+            for idx in np.ndindex(*a.shape):
+                a[idx] = fresh("POISON", R)
+            return Sym.make(a, out.dtype)
         return lift_tensor(out)
     return out
 
@@ -301,8 +308,8 @@ def s_add(x, y):
 
 
 handles("add", "__add__", "__radd__")(_binop(s_add))
-handles("sub", "__sub__")(_binop(T.sub))
-handles("mul", "__mul__", "__rmul__", "multiply")(_binop(T.mul))
+handles("sub", "__sub__")(_binop(lambda x, y: T.sub(x, y)))
+handles("mul", "__mul__", "__rmul__", "multiply")(_binop(lambda x, y: T.mul(x, y)))
 handles("div", "true_divide", "__truediv__", "divide")(_binop(s_div))
 
 
@@ -363,7 +370,7 @@ def _unop(f, keep_dtype=True):
     return h
 
 
-handles("neg", "__neg__", "negative")(_unop(T.neg))
+handles("neg", "__neg__", "negative")(_unop(lambda x: T.neg(x)))
 handles("positive", "__pos__")(_unop(lambda x: x))
 
 
